@@ -22,7 +22,7 @@ from mirsym import loader, validate                      # noqa: E402
 from mirsym.execu import ExecError, Program, Executor     # noqa: E402
 from mirsym.values import *                               # noqa: E402,F401
 from mirsym import builtins as _b                         # noqa: E402
-from mirsym import deku_bi, fmt_bi, float_bi              # noqa: E402,F401
+from mirsym import deku_bi, fmt_bi, float_bi, coll_bi     # noqa: E402,F401
 
 SEED = int(os.environ.get('VERIF_SEED', '0') or 0)
 NPROC = int(os.environ.get('VERIF_JOBS', '16'))
@@ -155,12 +155,57 @@ def _worker_run(job):
         return {'job': job, 'inconclusive': 'internal error: %r' % (e,), 'trace': traceback.format_exc()[-2500:]}
 
 
+_FPABS = {}
+_FPABS_KEEP = []
+
+
+def abstract_fp(t):
+    """Replace every floating-point *computation* (arithmetic, conversions, libm applications) inside t by a fresh
+    constant per distinct term, keeping if-then-else structure, variables and constants.  The result only needs
+    equality reasoning; validity of the abstraction implies validity of t (congruence is lost, nothing is added)."""
+    subs = []
+    seen = set()
+    stack = [t]
+    while stack:
+        x = stack.pop()
+        i = x.get_id()
+        if i in seen:
+            continue
+        seen.add(i)
+        if z3.is_fp(x) or z3.is_fprm(x):
+            k = x.decl().kind()
+            if k == z3.Z3_OP_ITE:
+                stack.extend(x.children())
+                continue
+            if z3.is_const(x) or z3.is_fp_value(x):
+                continue
+            c = _FPABS.get(i)
+            if c is None:
+                c = z3.Const('fpval!%d' % len(_FPABS), x.sort())
+                _FPABS[i] = c
+                _FPABS_KEEP.append(x)
+            subs.append((x, c))
+            continue
+        if z3.is_bool(x) and x.num_args() > 0 and any(z3.is_fp(ch) for ch in x.children()) and x.decl().kind() != z3.Z3_OP_EQ and x.decl().kind() != z3.Z3_OP_ITE:
+            c = _FPABS.get(i)
+            if c is None:
+                c = z3.Bool('fppred!%d' % len(_FPABS))
+                _FPABS[i] = c
+                _FPABS_KEEP.append(x)
+            subs.append((x, c))
+            continue
+        stack.extend(x.children())
+    if not subs:
+        return t
+    return z3.substitute(t, *subs)
+
+
 class Prover:
     """Per-leaf obligation discharge with one incremental solver.  A claim that is valid already under the
     slice constraints alone (no path condition) is cached by AST identity and discharges every later
     occurrence of the same term (the decoded value of a field read before a fork is one shared term)."""
 
-    def __init__(self, timeout_ms=120000, base=None):
+    def __init__(self, timeout_ms=int(os.environ.get('VERIF_PROVER_TIMEOUT_MS', '120000')), base=None):
         self.s = z3.Solver()
         self.s.set('timeout', timeout_ms)
         self.obligations = 0
@@ -175,8 +220,14 @@ class Prover:
             self.base.add(c)
         self.valid = {}
         self.notvalid = set()
+        self.abstract = False
 
     def set_path(self, pc):
+        if self.abstract:
+            pc = [abstract_fp(c) for c in pc]
+        self._set_path(pc)
+
+    def _set_path(self, pc):
         while self.depth:
             self.s.pop()
             self.depth -= 1
@@ -195,6 +246,8 @@ class Prover:
             return None
         if claim is False:
             claim = z3.BoolVal(False)
+        if self.abstract:
+            claim = abstract_fp(claim)
         key = claim.get_id()
         if key in self.valid:
             if count:
@@ -238,7 +291,7 @@ class Prover:
         t = time.time()
         self.s.push()
         if cond is not None:
-            self.s.add(cond)
+            self.s.add(abstract_fp(cond) if self.abstract else cond)
         r = self.s.check()
         m = self.s.model() if r == z3.sat else None
         self.s.pop()
